@@ -198,3 +198,40 @@ def r7_8(ctx):
             ctx.ob("%s:returned-constant#%d:negatable" % (fn.split("::")[-1], k), ok, b.where(loc),
                    "returns the constant %d; every caller negates the result%s" % (e[1], "" if ok else ": -(i32::MIN) overflows - the first abort inside the tree panics in a build with overflow checks and wraps to the same value otherwise"))
     ctx.floor("constants returned by the search", n, 1)
+
+
+FAPBM = "uci::find_and_play_best_move"
+
+
+def r8_5(ctx):
+    """The `go` handler cannot die on its own arithmetic: every compiler-inserted panic check (overflow,
+    bounds, division) in find_and_play_best_move and the closures it spawns is discharged by interval
+    analysis.  Its waiting loop runs past the deadline whenever no move has arrived yet, so e.g.
+    `allowance - elapsed` on unsigned values is exactly the subtraction that underflows there."""
+    f = ctx.facts
+    if not f.has_body(FAPBM):
+        raise AnchorMissing(FAPBM)
+    names = [FAPBM] + sorted(n for n in f.body_names() if n.startswith(FAPBM + "::{closure"))
+    n = 0
+    for fn in names:
+        b = f.body(fn)
+        ctx.note_fn(fn)
+        iv = None
+        k = 0
+        for bb in sorted(b.normal):
+            t = b.term(bb)
+            if bb not in b.reachable or t["k"] != "assert":
+                continue
+            n += 1
+            k += 1
+            iv = iv or Intervals(b)
+            ok, d = iv.assert_holds(bb)
+            ctx.ob("%s:%s#%d" % (fn.split("::", 1)[-1], t["assert_kind"], k), ok, b.where(b.term_loc(bb)),
+                   d if ok else "`%s`: %s - a debug build panics here and the engine dies without a bestmove; a release build wraps" % (b.text_at(b.term_loc(bb))[:70], d))
+    # positive control: the matcher sees such checks where they exist (the go-argument parser has index arithmetic)
+    pc = 0
+    for fn in ("uci::parse_go_command", "uci::make_move"):
+        if f.has_body(fn):
+            b = f.body(fn)
+            pc += sum(1 for bb in b.normal if bb in b.reachable and b.term(bb)["k"] == "assert")
+    ctx.ob("matcher-sees-arithmetic-checks", pc >= 1, "", "positive control: %d panic checks visible in the argument parser / text applier; %d in the go handler" % (pc, n), reason="below-floor", nontrivial=False)
